@@ -12,33 +12,23 @@
 
   Conventions: `hdr&1`, `hdr>>1`, `u32>>2` are written `% 2`, `/ 2`, `/ 4` (same function on naturals).
   `int32` arithmetic that can wrap in the code (`total *= dim`) wraps here (`wrap32`).
-  heap.go:typeAlign (called by decodeArray since patch 02) is mirrored by hand; `Proofs/Arrays.lean` checks the
-  three tables against the graphs obtained by executing the code (Generated/Arrays.lean).
+  heap.go:typeAlign (called by decodeArray since patch 02) is transcribed case by case (`typeAlignSwitch`, then the
+  array-type branch, then the default by length); `arrayElemTypes` is read from the Go source on every run;
+  `Proofs/ArraysTables.lean` checks the tables against the graphs obtained by executing the code (Generated/Arrays.lean).
 -/
 import PgVerif.Basic.Canon
+import PgVerif.Generated.Arrays
 namespace PgVerif.Model.Arrays
 open PgVerif
 
 /-- the element decoder `DecodeType(data, elemOid)` -/
 abbrev Dec := Bytes → Nat → M GoVal
 
-/-- types.go:arrayElemTypes -/
-def arrayElemTypes : List (Nat × Nat) := [
-  (1000, 16), (1001, 17), (1002, 18), (1003, 19),
-  (1005, 21), (1006, 22), (1007, 23), (1008, 26),
-  (1009, 25), (1010, 27), (1011, 28), (1012, 29),
-  (1014, 1042), (1015, 1043), (1016, 20),
-  (1017, 600), (1018, 601), (1019, 602), (1020, 603),
-  (1021, 700), (1022, 701), (1027, 604),
-  (1028, 26), (1040, 829), (1041, 869),
-  (1115, 1114), (1182, 1082), (1183, 1083),
-  (1185, 1184), (1187, 1186), (1231, 1700),
-  (1270, 1266), (1561, 1560), (1563, 1562),
-  (2951, 2950), (3221, 3220), (3643, 3614), (3645, 3615),
-  (3807, 3802), (4073, 4072),
-  (629, 628), (651, 650), (719, 718), (775, 774), (791, 790),
-  (3905, 3904), (3907, 3906), (3909, 3908),
-  (3911, 3910), (3913, 3912), (3927, 3926)]
+/-- types.go:arrayElemTypes, read from the map literal in the current Go source by this area's harness
+(package srctab → `Generated.Arrays.arrayElemTypes`, rewritten on every run).  `Model.Scalars` uses the copy its own area's
+harness emits; `Props.C07.C07_tables` proves the two equal.  `Proofs/ArraysTables.lean` cross-checks the table against the
+executed code (key set, element layout, element decoder) and against the Spec's pg_type rows. -/
+def arrayElemTypes : List (Nat × Nat) := Generated.Arrays.arrayElemTypes
 
 /-- types.go:fixedLengths -/
 def fixedLengths : List (Nat × Nat) := [
@@ -49,19 +39,41 @@ def fixedLengths : List (Nat × Nat) := [
   (600, 16), (601, 32), (603, 32), (628, 24), (718, 24),
   (1266, 12), (1186, 16), (19, 64)]
 
-/-- heap.go:typeAlign (the switch, then the default by length) -/
-def typeAlign (typID : Nat) (length : Int) : Nat :=
-  if typID ∈ [20, 701, 1114, 1184, 1083, 790, 3220, 600, 601, 603, 628, 718, 1186, 1266] then 8
-  else if typID ∈ [23, 26, 700, 1082, 28, 29, 25, 1043, 1042, 17, 114, 3802, 142, 1700, 869, 650, 602, 604,
-                   1560, 1562, 3614, 3615, 4072, 3904, 3926, 3906, 3912, 3908, 3910] then 4
-  else if typID ∈ [21, 27] then 2
-  else if typID ∈ [829, 774] then 4
-  else if typID ∈ [16, 18, 19, 2950] then 1
-  else if length = -1 then 4
-  else if length ≥ 8 then 8
-  else if length ≥ 4 then 4
-  else if length ≥ 2 then 2
-  else 1
+/-- heap.go:typeAlign, the `switch typID` (case by case, in source order); `none` = no case matched -/
+def typeAlignSwitch (typID : Nat) : Option Nat :=
+  if typID ∈ [20, 701, 1114, 1184, 1083, 790, 3220] then some 8        -- int8 float8 timestamp[tz] time money pg_lsn
+  else if typID ∈ [600, 601, 603, 628, 718] then some 8                -- point lseg box line circle
+  else if typID ∈ [1186, 1266] then some 8                             -- interval timetz
+  else if typID ∈ [602, 604] then some 8                               -- path polygon
+  else if typID ∈ [3926, 3908, 3910] then some 8                       -- int8range tsrange tstzrange
+  else if typID ∈ [23, 26, 700, 1082, 28, 29] then some 4              -- int4 oid float4 date xid cid
+  else if typID ∈ [25, 1043, 1042, 17, 114, 3802, 142] then some 4     -- text varchar bpchar bytea json jsonb xml
+  else if typID ∈ [1700, 869, 650] then some 4                         -- numeric inet cidr
+  else if typID ∈ [1560, 1562, 3614, 3615, 4072] then some 4           -- bit varbit tsvector tsquery jsonpath
+  else if typID ∈ [3904, 3906, 3912] then some 4                       -- int4range numrange daterange
+  else if typID ∈ [21, 27] then some 2                                 -- int2 tid
+  else if typID ∈ [829, 774] then some 4                               -- macaddr macaddr8
+  else if typID ∈ [16, 18, 19, 2950] then some 1                       -- bool char name uuid
+  else none
+
+/-- heap.go:typeAlign with its self-call unrolled `fuel` times: the switch; else "an array type is 'd' aligned when its
+element type is" (`typeAlign(elem, 0) == 8`); else the default by length -/
+def typeAlignN : Nat → Nat → Int → Nat
+  | 0, _, _ => 1
+  | fuel+1, typID, length =>
+    match typeAlignSwitch typID with
+    | some a => a
+    | none =>
+      if (match arrayElemTypes.lookup typID with | some elem => typeAlignN fuel elem 0 == 8 | none => false) then 8
+      else if length = -1 then 4
+      else if length ≥ 8 then 8
+      else if length ≥ 4 then 4
+      else if length ≥ 2 then 2
+      else 1
+
+/-- heap.go:typeAlign.  The self-call is on an element oid of `arrayElemTypes`, none of which is an array oid
+(`Proofs.Arrays.elem_not_array`), so the recursion ends after one step; fuel 3 is more than enough. -/
+def typeAlign (typID : Nat) (length : Int) : Nat := typeAlignN 3 typID length
 
 /-- what decodeArray derives from the element oid: `(elemLen, fixed, elemAlign)` -/
 def elemLayout (elemOid : Nat) : Nat × Bool × Nat :=
